@@ -4,7 +4,7 @@ Serves C01 (update leg), C02 (show / next run accept), C03, C04, C15 (slots), C0
 import datetime as dt
 
 import runner
-from sim import invoker, fakevcs, world as simworld
+from sim import invoker, fakevcs, adapter, world as simworld
 from ref import pattern as rp, pep440
 from gen import patterns as gp, layouts
 from campaigns import testcmd as tc
@@ -64,7 +64,7 @@ def do_show(ctx, w, clock, text, extra_argv=(), state=None):
 
 class Life:
     def __init__(self, focus, quick, thorough, mode="plain", allow_mixed=True, sv_rate=0.1, vcs="maybe", family=None,
-                 nmax=6, dry_rate=0.2):
+                 nmax=6, dry_rate=0.2, pep_any=False, force_pep=False, zero_bid=False, grep_pep=False):
         self.focus = focus
         self.name = "LIFE/" + focus
         self._quick, self._thorough = quick, thorough
@@ -75,6 +75,7 @@ class Life:
         self.family = family
         self.nmax = nmax
         self.dry_rate = dry_rate
+        self.pep_any, self.force_pep, self.zero_bid, self.grep_pep = pep_any, force_pep, zero_bid, grep_pep
 
     def total(self, tier):
         return self._quick if tier == "quick" else self._thorough
@@ -85,7 +86,8 @@ class Life:
     def gen(self, seed, index, tier):
         rng = runner.rng_for(seed, self.name, index)
         vcs = self.vcs
-        project = layouts.gen_project(rng, mode=self.mode, allow_mixed=self.allow_mixed, vcs=vcs, family=self.family)
+        project = layouts.gen_project(rng, mode=self.mode, allow_mixed=self.allow_mixed, vcs=vcs, family=self.family,
+                                      pep_any=self.pep_any, force_pep=self.force_pep, zero_bid=self.zero_bid)
         if project["vcs"] is not None:
             # quoting of odd paths at the VCS seam is C12's subject; keep this campaign's failures version-caused
             if any(ch in f["path"] for f in project["files"] for ch in " '\"") or \
@@ -157,6 +159,17 @@ class Life:
 
         ctx.sample = {"campaign": self.name, "pattern": pattern, "start": text, "syntax": project["syntax"],
                       "files": {f["path"]: f["patterns"] for f in project["files"]}, "ops": case["ops"][:4]}
+        if self.grep_pep and pep440.is_pep440(text):
+            snap0 = invoker.snapshot(w.dir)
+            f0 = {"pattern": pattern, "nondot_sep": not layouts.pep_friendly(pattern),
+                  "bld_zero": "bid" in state and int(state["bid"]) == 0, "initial": True}
+            for f in project["files"]:
+                for raw in f["patterns"]:
+                    if "{pep440_version}" in raw and not adapter.search_pattern_finds(
+                            pattern, raw, snap0.get(f["path"], b"").decode("utf-8", "replace")):
+                        ctx.violation("C15", "pep440_slot_not_found_again", dict(f0, path=f["path"]),
+                                      "the {pep440_version} text bumpver renders for %r (%r) is not accepted by the "
+                                      "derived search pattern %r" % (text, w.pep_initial(text), raw))
         generated = False
         regions = tuple(sorted(set(s["slot"] if s["slot"].startswith("{") else "partial"
                                    for f in project["files"] for ln in f["lines"] for s in ln["segs"]
@@ -196,6 +209,8 @@ class Life:
             ctx.transition(abstract[:5] + (res.exit_code,))
             base_facts = tc.facts_for(tree, state, exp[1], flags, pattern)
             base_facts["syntax"] = project["syntax"]
+            base_facts["nondot_sep"] = not layouts.pep_friendly(pattern)
+            base_facts["bld_zero"] = "bid" in state and int(state["bid"]) == 0
             if op.get("dry") and res.changed:
                 ctx.violation("C13", "dry_changed_files", base_facts, "`update --dry` changed files (argv %s)" % argv)
                 ctx.violation("C01", "dry_changed_files", base_facts, "`update --dry` changed files (argv %s)" % argv)
@@ -238,3 +253,16 @@ class Life:
             if not ok:
                 break
             state, text, generated = new_state, new_text2, gen2
+            if self.grep_pep and pep440.is_pep440(text):
+                # C15: what was written for {pep440_version} is accepted by the derived search pattern
+                for f in project["files"]:
+                    for raw in f["patterns"]:
+                        if "{pep440_version}" not in raw:
+                            continue
+                        content = res.after.get(f["path"], b"").decode("utf-8", "replace")
+                        found = adapter.search_pattern_finds(pattern, raw, content)
+                        ctx.probe("pep440_slot_grepped")
+                        if not found:
+                            ctx.violation("C15", "pep440_slot_not_found_again", dict(base_facts, path=f["path"]),
+                                          "search pattern %r no longer finds the {pep440_version} text written to %s for %r" % (
+                                              raw, f["path"], text))
